@@ -301,6 +301,18 @@ class Interp:
             env[tgt.id] = val
         elif isinstance(tgt, (ast.Tuple, ast.List)):
             vals = list(val)
+            stars = [i for i, t in enumerate(tgt.elts) if isinstance(t, ast.Starred)]
+            if len(stars) == 1:
+                k = stars[0]
+                after = len(tgt.elts) - k - 1
+                if len(vals) < len(tgt.elts) - 1:
+                    raise PyRaise(ValueError, tgt, 'not enough values to unpack')
+                for t, v in zip(tgt.elts[:k], vals[:k]):
+                    self.assign(t, v, env)
+                self.assign(tgt.elts[k].value, vals[k:len(vals) - after], env)
+                for t, v in zip(tgt.elts[k + 1:], vals[len(vals) - after:] if after else []):
+                    self.assign(t, v, env)
+                return
             if len(vals) != len(tgt.elts):
                 raise Unknown('unpack arity')
             for t, v in zip(tgt.elts, vals):
@@ -348,7 +360,7 @@ class ExcValue:
 
 
 def _walk_own(fn):
-    stack = list(fn.body)
+    stack = [s for s in fn.body if not isinstance(s, (ast.FunctionDef, ast.AsyncFunctionDef, ast.ClassDef))]
     while stack:
         n = stack.pop()
         yield n
